@@ -27,6 +27,24 @@ def targeted(rng, tier):
         if not t: continue
         new = rng.choice(['{t} **bold**', '**b1** {t}', '{t} _it_ and **bo**', '**_both_** {t}', 'x **y** z', '_i1_ {t} _i2_']).replace('{t}', t)
         out.append((d, [(t, new, None, None)]))
+    # a target running from a heading paragraph into the paragraph after it, replaced by block text that opens with a heading line of
+    # that level (or another one): the line becomes a heading paragraph - the paragraph the LAST target run sits in decides about
+    # keeping it inline, not the one the target starts in
+    for k in range(12 if tier == 'quick' else 240):
+        d = docgen.gen_doc(rng, 'plain')
+        ps = [b for b in next(st for st in d['stories'] if st['kind'] == 1)['blocks'] if b['t'] == 'p']
+        lvl = rng.randint(1, 3)
+        for b in ps[:-1]:
+            if rng.random() < .5: b['style'] = ['H', lvl]
+        bts = A.build(d); din = A.read(bts, table=list(d['rpr_table'])); raw = docrun.extract(bts, False)
+        tx = E.para_texts(din, 'acc'); st = [q['style'] for q in A.paras(din)]
+        cands = [i for i in range(len(tx) - 1) if st[i][0] == 'H' and len(tx[i].strip()) > 3 and len(tx[i + 1].strip()) > 3]
+        rng.shuffle(cands)
+        for i in cands:
+            t = tx[i][-rng.randint(2, 5):] + '\n\n' + tx[i + 1][:rng.randint(2, 5)]
+            if raw.count(t) == 1 and not any(ch in t for ch in '{}|*_'):
+                new = '#' * (st[i][1] if rng.random() < .7 else rng.randint(1, 3)) + ' New Title\n\nNew body'
+                out.append((d, [(t, new, rng.choice([None, 'c']), None)])); break
     return out
 PID = 'C16'
 def run(tier, seed):
